@@ -25,7 +25,7 @@ ASSUMPTIONS = ["trailing whitespace of a displayed line is not compared (it is i
                "non-blank characters of the line are compared (wrapping re-flows whitespace)",
                "blank lines at the very end are not compared (the statement excludes them)",
                "Pygments lexers return the characters they are given (trusted third-party component)"]
-REQUIRED = ["mon.syntax_lines", "mon.syntax_numbers", "mon.syntax_range", "mon.traceback_frames"]
+REQUIRED = ["mon.from_path", "mon.syntax_lines", "mon.syntax_numbers", "mon.syntax_range", "mon.traceback_frames"]
 MIN_NONTRIVIAL = {"quick": 1500, "thorough": 80000}
 
 PY_LINES = ["import os", "def f(x):", "    return x + 1", "class A:", "    pass", "x = [1, 2, 3]", "# comment 漢字",
@@ -47,7 +47,7 @@ def gen_source(rng):
             lines.append(rng.choice(pool))
         else:
             w = S.pick_weights(rng)
-            w.pop("zero", None)
+            S.drop_zero(w)
             lines.append(S.free_string(rng, rng.choice([0, 5, 20, 60]), w, space=0.2, tab=0.03))
     if rng.random() < 0.15 and lines:
         # leading whitespace that is not U+0020 (ideographic space, no-break space, en quad): still characters
@@ -148,9 +148,34 @@ def wl_syntax(ctx, rng, case_no):
         feats.append("line_range")
         if opts["line_range"][0] > nsrc:
             feats.append("range-starts-beyond-code")
+    # construction route: from a string with a named lexer, or from a file whose extension picks the lexer
+    route = "from_path" if rng.random() < 0.25 else "string"
+    path = None
+    if route == "from_path":
+        import os
+        import tempfile
+        ext = {"python": rng.choice([".py", ".PY", ".python"]), "json": ".json", "html": rng.choice([".html", ".htm"]),
+               "text": rng.choice([".txt", ""]), "nosuchlexer": rng.choice([".nosuchext", ".x-y"])}[lexer]
+        fd, path = tempfile.mkstemp(suffix=ext, prefix="rvc17_")
+        with os.fdopen(fd, "w", encoding="utf-8", newline="") as f:
+            f.write(code)
+        with open(path, "rt", encoding="utf-8") as f:
+            code = f.read()          # what a text-mode read of that file yields (universal newlines)
+        nsrc = len(code.split("\n"))
+        wit["code"] = code
+        wit["route"] = "from_path(%r)" % ext
+        feats.append("from_path")
+        ctx.count("mon.from_path")
     ftag = "+".join(feats) or "plain"
     try:
-        shown = render_plain(console, Syntax(code, lexer, **opts))
+        if route == "from_path":
+            try:
+                syn = Syntax.from_path(path, **opts)
+            finally:
+                os.unlink(path)
+        else:
+            syn = Syntax(code, lexer, **opts)
+        shown = render_plain(console, syn)
     except Exception as e:
         from rv.core.runner import exc_mechanism
         ctx.violation("syntax-render-raises:%s:%s" % (exc_mechanism(e).split(":", 1)[1], ftag), dict(wit, error=repr(e)))
